@@ -801,6 +801,36 @@ def main(pid, rep=None, finish=True):
         verdicts = obs_verdicts([s[2] for s in cap], rep)
         ndiff = 0
         for (kind, full, tr), bad in zip(cap, verdicts):
+            bad = set(bad)
+            if "SegIndep" in bad and "SegIndep" in own:
+                # the observation formula compares with ONE reference outcome (which refusal status, which text); the
+                # property is relational (C07: same bytes, other reads, same outcome) resp. about validity (C08: a valid
+                # request is not refused).  Confirm before reporting: a difference from the reference alone is drift.
+                confirmed = False
+                if pid == "C07" and kind not in ("real-component", "loop-iteration schedule") and ndiff < 400:
+                    ndiff += 1
+                    d = differential(tr, rep.seed)
+                    if d:
+                        rep.violation({"formula": "SegIndep", "differential": True, "cls": tr["cfg"]["s"]["cls"]},
+                                      "SegIndep falsified (differential; formulas falsified: %s): cfg=%s: %s" % (
+                                          sorted(bad), json.dumps(tr["cfg"]), d), full)
+                        continue
+                if pid == "C08":
+                    c_ = tr["cfg"]
+                    s_ = c_["s"]
+                    total = s_["lineLen"] + (2 if s_["crlf"] else 0) + s_["after"]
+                    datas = [st_.get("p") or 0 for st_ in tr["steps"] if st_["a"] == "Data"]
+                    valid = s_["crlf"] and s_["lineLen"] + 2 <= 1024 and all(m_ == "allow" for m_ in c_["mw"]) and \
+                        (s_["cls"] == "ok" or (s_["cls"] == "titan" and c_["hasUpload"] and s_["after"] >= s_["tsize"]))
+                    last = tr["steps"][-1].get("o", {}) if tr["steps"] else {}
+                    acts_ = [st_["a"] for st_ in tr["steps"]]
+                    need = s_["lineLen"] + 2 + (s_["tsize"] if s_["cls"] == "titan" else 0)
+                    confirmed = bool(valid and datas and max(datas) >= need and "PeerDisconnect" not in acts_ and "TimerFire" not in acts_
+                                     and last.get("wire") and (last.get("h", 0) + last.get("u", 0)) == 0
+                                     and not last.get("busy") and last.get("mw", 0) >= len(c_["mw"]))
+                if not confirmed:
+                    bad.discard("SegIndep")
+                    bad.add("SegIndep(reference outcome differs)")
             mine = sorted(bad & own)
             err = [s for s in full.get("steps", []) if "error" in s]
             if mine:
@@ -811,7 +841,7 @@ def main(pid, rep=None, finish=True):
             else:
                 if kind in ("real-component", "loop-iteration schedule") and not bad:
                     continue          # executions that are only judged, not compared with the model step by step
-                if pid == "C07" and kind not in ("real-component", "loop-iteration schedule") and ndiff < 400:
+                if pid == "C07" and "SegIndep(reference outcome differs)" not in bad and kind not in ("real-component", "loop-iteration schedule") and ndiff < 400:
                     # C07 is relational: whatever else is wrong, re-segmenting the same bytes must not change the outcome
                     ndiff += 1
                     d = differential(tr, rep.seed)
